@@ -1,7 +1,8 @@
 /-
   TE.Spec.Sync — what gathering / syncing is supposed to deliver (C15, C02).
   No collectives, no padding, no negotiation: just "the list of all members'
-  values in rank order, on every rank that receives".
+  values in rank order, on every rank that receives"; the hypotheses under which that
+  holds (`Syncable`); and the arrival-order semantics of a rendezvous (schedule independence).
 -/
 import TE.Model.Sync
 namespace TE.Spec.Sync
@@ -29,4 +30,181 @@ def others (n r : Nat) : List Nat := (List.range n).filter (· != r)
 def merged {S : Type} (mrg : S → List S → Except Err S) (n : Nat) (loc : Nat → S) (r : Nat) : Except Err S :=
   mrg (loc r) ((others n r).map loc)
 
+/-! ### a dict state is a map: its canonical listing -/
+
+/-- the entries of a dict state listed by sorted key (what `dict(zip(sorted(keys), values))` holds). -/
+def canonDict (kv : List (String × Tensor)) : List (String × Tensor) :=
+  let ks := sortKeys (kv.map (·.1))
+  List.zip ks (valuesByKeys kv ks)
+
+/-- a state as it is after travelling: identical, except that a dict lists its entries by sorted key
+    (`canonDict_lookup`: same keys, same value under every key). -/
+def canon : TState → TState
+  | .dict kv => .dict (canonDict kv)
+  | s => s
+
+def canonEntry (kv : Key × TState) : Key × TState := (kv.1, canon kv.2)
+
+/-- a metric's state dict as the receiving side reconstructs it (the attributes of the pseudo-metric):
+    states listed by sorted name, dict states by sorted key — the same map
+    (`TE.Sync.recon_lookup`). -/
+def recon (sd : List (String × TState)) : List (String × TState) :=
+  (sortKeys (sd.map (·.1))).filterMap fun s => (lookupKey s sd).map fun v => (s, canon v)
+
 end TE.Spec.Sync
+
+namespace TE.Sync
+open TE.Spec.Sync
+
+/-! ### hypotheses -/
+
+/-- the destination is `None` or names a member by its group rank. -/
+def DstIn (n : Nat) : Option Nat → Prop
+  | none => True
+  | some d => d < n
+
+instance (n : Nat) (dst : Option Nat) : Decidable (DstIn n dst) := by
+  cases dst <;> unfold DstIn <;> exact inferInstance
+
+/-- a process group: the members' global ranks (any numbers, any order) without repetition, `n` of them. -/
+structure IsGroup (g : List Nat) (n : Nat) : Prop where
+  nodup : g.Nodup
+  len : g.length = n
+
+/-- the environment of member `i` (group rank) of group `g`. -/
+def envOf (g : List Nat) (n : Nat) (dst : Option Nat) (junk : Nat → Q) (i : Nat) : Env := ⟨i, n, g, dst, junk i⟩
+
+/-- tensors the members send: one dtype, one number of dimensions (shapes otherwise arbitrary), well-formed. -/
+def Sendable (n : Nat) (T : Nat → Tensor) (dt : DType) (k : Nat) : Prop :=
+  ∀ i, i < n → (T i).dtype = dt ∧ (T i).shape.length = k ∧ (T i).WF
+
+/-- list states: every element on every rank has one dtype and one number of dimensions
+    (shapes otherwise arbitrary, any lengths, empty lists included) and is well-formed. -/
+def ListSendable (n : Nat) (xs : Nat → List Tensor) (dt : DType) (k : Nat) : Prop :=
+  ∀ i, i < n → ∀ t ∈ xs i, t.dtype = dt ∧ t.shape.length = k ∧ t.WF
+
+/-- one state across the `n` members: the same KIND everywhere, and per kind what synclib documents. -/
+inductive StateOk (n : Nat) (st : Nat → TState) : Prop where
+  | tensor (T : Nat → Tensor) (dt : DType) (k : Nat)
+      (h : ∀ i, i < n → st i = .tensor (T i)) (hT : Sendable n T dt k)
+  | list (xs : Nat → List Tensor) (dt : DType) (k : Nat)
+      (h : ∀ i, i < n → st i = .list (xs i)) (hx : ListSendable n xs dt k)
+  /-- equal key sets (`hk`), values homogeneous like list elements -/
+  | dict (kv : Nat → List (String × Tensor)) (ks : List String) (dt : DType) (k : Nat)
+      (h : ∀ i, i < n → st i = .dict (kv i)) (hk : ∀ i, i < n → sortKeys ((kv i).map (·.1)) = ks)
+      (hv : ListSendable n (fun i => valuesByKeys (kv i) ks) dt k)
+  | int (N : Nat → Int) (h : ∀ i, i < n → st i = .int (N i))
+  | float (F : Nat → Q) (h : ∀ i, i < n → st i = .float (F i))
+
+/-- **`Syncable n E`**: the members' state collections `E 0 … E (n-1)`, each listed in traversal
+    order, have the same (metric, state) names position by position, and every state is `StateOk`. -/
+inductive Syncable (n : Nat) : (Nat → List (Key × TState)) → Prop where
+  | nil {E : Nat → List (Key × TState)} (h : ∀ i, i < n → E i = []) : Syncable n E
+  | cons {E : Nat → List (Key × TState)} (key : Key) (st : Nat → TState) (E' : Nat → List (Key × TState))
+      (h : ∀ i, i < n → E i = (key, st i) :: E' i) (hs : StateOk n st) (hE : Syncable n E') : Syncable n E
+
+/-! ### a checker for `Syncable` (sound: `TE.Sync.syncableB_sound`) -/
+
+def asTensor : TState → Option Tensor | .tensor t => some t | _ => none
+def asList : TState → Option (List Tensor) | .list l => some l | _ => none
+def asDict : TState → Option (List (String × Tensor)) | .dict kv => some kv | _ => none
+def asInt : TState → Option Int | .int n => some n | _ => none
+def asFloat : TState → Option Q | .float q => some q | _ => none
+
+/-- every tensor has dtype `dt`, `k` dimensions, and as many elements as its shape says. -/
+def tensorsOkB (dt : DType) (k : Nat) (ts : List Tensor) : Bool :=
+  ts.all fun t => t.dtype == dt && t.shape.length == k && t.data.length == prod t.shape
+
+def firstSig (ts : List Tensor) : DType × Nat :=
+  match ts with
+  | t :: _ => (t.dtype, t.shape.length)
+  | [] => (.f32, 0)
+
+def homogeneousB (ts : List Tensor) : Bool := tensorsOkB (firstSig ts).1 (firstSig ts).2 ts
+
+/-- the members' values of one state (in rank order) are `StateOk`. -/
+def stateOkB (sts : List TState) : Bool :=
+  match sts with
+  | [] => true
+  | .tensor _ :: _ =>
+    match sts.mapM asTensor with
+    | some ts => homogeneousB ts
+    | none => false
+  | .list _ :: _ =>
+    match sts.mapM asList with
+    | some xss => homogeneousB xss.flatten
+    | none => false
+  | .dict kv0 :: _ =>
+    match sts.mapM asDict with
+    | some kvs =>
+      let ks := sortKeys (kv0.map (·.1))
+      kvs.all (fun kv => sortKeys (kv.map (·.1)) == ks) && homogeneousB (kvs.map fun kv => valuesByKeys kv ks).flatten
+    | none => false
+  | .int _ :: _ => (sts.mapM asInt).isSome
+  | .float _ :: _ => (sts.mapM asFloat).isSome
+
+/-- position by position (at most `fuel` positions): same key on every member, `stateOkB`. -/
+def syncableGo : Nat → List (List (Key × TState)) → Bool
+  | 0, rows => rows.all List.isEmpty
+  | fuel + 1, rows =>
+    if rows.all List.isEmpty then true else
+    match rows.mapM List.head? with
+    | none => false
+    | some hs =>
+      match hs with
+      | [] => true
+      | h0 :: _ => hs.all (fun h => h.1 == h0.1) && stateOkB (hs.map (·.2)) && syncableGo fuel (rows.map List.tail)
+
+/-- `rows[i]` = member `i`'s collection in traversal order. -/
+def syncableB (rows : List (List (Key × TState))) : Bool :=
+  syncableGo (match rows with | r :: _ => r.length | [] => 0) rows
+
+/-! ### arrival-order semantics (schedule independence) -/
+
+/-- a configuration: every member's program, and the members that have arrived at the pending
+    rendezvous (indices into `progs`). -/
+structure Config (R : Type) where
+  progs : List (Prog R)
+  arrived : List Nat
+
+/-- all members wait at their first collective (or have returned); nobody has arrived yet. -/
+def Config.init {R : Type} (ps : List (Prog R)) : Config R := ⟨ps, []⟩
+
+/-- one step of a group `g`:
+    * `arrive i`: a member that sits at a collective and has not arrived yet arrives — in ANY order;
+    * `complete`: once ALL members have arrived, the transport answers every member and they continue. -/
+inductive Step {R : Type} (g : List Nat) : Config R → Config R → Prop where
+  | arrive (c : Config R) (i : Nat) (q : Req) (k : Resp → Prog R)
+      (hi : c.progs[i]? = some (.coll q k)) (hn : i ∉ c.arrived) :
+      Step g c ⟨c.progs, i :: c.arrived⟩
+  | complete (c : Config R) (qs : List Req) (r : Resp) (rs : List Resp)
+      (hall : ∀ i, i < c.progs.length → i ∈ c.arrived)
+      (hq : reqsOf c.progs = some qs) (hx : exchange g qs = .ok (r :: rs)) :
+      Step g c ⟨stepAll c.progs (r :: rs), []⟩
+
+/-- finitely many steps. -/
+inductive Steps {R : Type} (g : List Nat) : Config R → Config R → Prop where
+  | refl (c : Config R) : Steps g c c
+  | tail {a b c : Config R} : Steps g a b → Step g b c → Steps g a c
+
+/-- nothing can move any more. -/
+def Final {R : Type} (g : List Nat) (c : Config R) : Prop := ∀ c', ¬ Step g c c'
+
+/-- what a configuration in which nothing can move amounts to: everybody returned; or somebody
+    raised; or somebody returned while others wait (a hang on real transports); or all wait at a
+    rendezvous the transport rejects. -/
+def Config.result {R : Type} (g : List Nat) (c : Config R) : Except Mismatch (List R) :=
+  match dones c.progs with
+  | some rs => .ok rs
+  | none =>
+    match firstFail c.progs with
+    | some e => .error (.crashed e)
+    | none =>
+      match reqsOf c.progs with
+      | none => .error .peerFinished
+      | some qs =>
+        match exchange g qs with
+        | .error e => .error e
+        | .ok _ => .error .arity
+
+end TE.Sync
